@@ -633,6 +633,7 @@ where
         a.partial_cmp(b)
             .unwrap_or(Ordering::Equal)
             .then_with(|| a_hash.cmp(b_hash))
+            .then_with(|| a.uuid().cmp(&b.uuid()))
             .then_with(|| a_idx.cmp(b_idx))
     });
 
@@ -735,6 +736,7 @@ where
         a_code
             .cmp(b_code)
             .then_with(|| a_vertex.partial_cmp(b_vertex).unwrap_or(Ordering::Equal))
+            .then_with(|| a_vertex.uuid().cmp(&b_vertex.uuid()))
             .then_with(|| a_idx.cmp(b_idx))
     });
 
@@ -821,18 +823,28 @@ where
     for v in vertices {
         let coords = v.point().coords();
         let mut duplicate = false;
+        let mut duplicate_of = None;
         let mut candidate_count = 0usize;
         let used_index = grid.for_each_candidate_vertex_key(coords, |idx| {
             candidate_count = candidate_count.saturating_add(1);
             let existing_coords = unique[idx].point().coords();
             if coords_equal_exact(coords, existing_coords) {
                 duplicate = true;
+                duplicate_of = Some(idx);
                 return false;
             }
             true
         });
 
         record_duplicate_detection_metrics(used_index, candidate_count, !used_index);
+
+        // Which of two coordinate-equal inputs survives must not depend on the listing order:
+        // keep the one with the smaller UUID.
+        if let Some(idx) = duplicate_of
+            && v.uuid() < unique[idx].uuid()
+        {
+            unique[idx] = v;
+        }
 
         if !duplicate {
             let idx = unique.len();
@@ -1259,6 +1271,7 @@ where
         a_idx
             .cmp(b_idx)
             .then_with(|| a_vertex.partial_cmp(b_vertex).unwrap_or(Ordering::Equal))
+            .then_with(|| a_vertex.uuid().cmp(&b_vertex.uuid()))
             .then_with(|| a_in.cmp(b_in))
     });
 
